@@ -154,8 +154,9 @@ class Ctx:
             'violations': len(self.violations),
         }
         ev['coverage'].update(self.extra)
-        os.makedirs(os.path.join(VERIF, 'evidence'), exist_ok=True)
-        with open(os.path.join(VERIF, 'evidence', self.prop + '.json'), 'w') as f:
+        evdir = os.environ.get('VERIF_EVIDENCE') or os.path.join(VERIF, 'evidence')   # seeded-tree runs write elsewhere
+        os.makedirs(evdir, exist_ok=True)
+        with open(os.path.join(evdir, self.prop + '.json'), 'w') as f:
             json.dump(ev, f, indent=1, default=str)
         for key, rest in self.known_hit:
             print('KNOWN-FINDING: property=%s %s %s' % (self.prop, key, rest))
